@@ -246,3 +246,11 @@ impl WorkerStateRef {
         state
     }
 }
+
+#[cfg(feature = "verif")]
+impl WorkerState {
+    /// Breaks the `state -> state_ref -> state` cycle so that a discarded simulated worker is freed.
+    pub(crate) fn verif_clear_state_ref(&mut self) {
+        self.state_ref = None;
+    }
+}
